@@ -169,6 +169,16 @@ impl Default for EndReport {
     }
 }
 
+/// `Some(true)` if `addr` is the start of a crate block that is still allocated, `Some(false)` if
+/// the registry is active on this thread and does not know it as live, `None` without a registry
+/// (Miri mode).
+pub fn is_live(addr: usize) -> Option<bool> {
+    if !ENABLED.try_with(|e| e.get()).unwrap_or(false) {
+        return None;
+    }
+    with_reg(|r| r.live.contains_key(&addr))
+}
+
 /// True if `addr` lies inside a released (quarantined) crate block.
 pub fn in_quarantine(addr: usize) -> bool {
     with_reg(|r| {
